@@ -215,6 +215,8 @@ func C03(ctx *core.Ctx) {
 		}
 	}
 
+	ctx.Rule("C03.R11", "a caller decodes its own reply: the frame a reader loop delivers is a buffer allocated for that frame alone (it is decoded later, on the caller's goroutine)", 1)
+	frameOwnership(ctx, r, "C03.R11")
 	ctx.Rule("C03.R10", "goroutines started in a loop capture per-iteration variables only (each accepted connection / message is served by its own goroutine with its own value)", 1)
 	c03LoopCapture(ctx, r, "C03.R10")
 
